@@ -96,7 +96,13 @@ macro_rules! impl_saturating {
             type Output = Self;
             #[inline]
             fn shl(self, rhs: u32) -> Self {
-                Self(self.0.checked_shl(rhs).unwrap_or(<$t>::MAX))
+                Self(if self.0 == 0 {
+                    0
+                } else if rhs > self.0.leading_zeros() {
+                    <$t>::MAX // a one bit would be shifted out (or `self` is the marker)
+                } else {
+                    self.0 << rhs
+                })
             }
         }
 
